@@ -110,6 +110,15 @@ impl Default for FaultVal {
         FaultVal(Vec::new())
     }
 }
+impl Drop for FaultVal {
+    fn drop(&mut self) {
+        // a destructor is user code as well (a stale value is dropped when its slot is reused); never while
+        // another panic is already unwinding - that would abort the process by itself
+        if !std::thread::panicking() {
+            callback();
+        }
+    }
+}
 impl Pay for FaultVal {
     const NAME: &'static str = "FaultVal";
     fn mk(key: u8, bit: bool) -> Self {
